@@ -30,6 +30,7 @@ export const NEEDS = {
   identAfterAssignInFn: { jsx: '<A0>{cap1}</A0>', decl: 'let cap1 = "c";\nfunction setCap() { cap1 = "d"; }' },
   reassignOuter: { jsx: null, reassign: 'outer' },
   reassignParam: { jsx: null, reassign: 'param' },
+  reassignTwice: { jsx: null, reassign: 'twice' },
   reassignSameList: { jsx: null, reassign: 'same' },
 };
 
@@ -103,13 +104,16 @@ export const SIBLINGS = {
   arrowWithJsxTemp: 'const sib5 = () => <B9>{g9()}</B9>;',
   fragmentUse: 'const fr = <>x</>;',
   ifStmt: 'if (typeof sib1 === "undefined") { var z = 1; }',
+  lateImport: 'import lateC from "probe:C0";',
+  lateVueImport: 'import { ref as lateRef, h as lateH } from "vue";',
+  lateExportFrom: 'export { default as reexported } from "probe:C0";',
 };
 
 const COLLIDERS = ['_x', '_createVNode', '_slot', '_slot2', '_isSlot', '_Fragment', '$event', 's', '_resolveComponent', '_transformOn', '_mergeProps', '_a', '_tv0', '_createTextVNode', '_isVNode', '_withDirectives'];
 
 const ENV = {
   globals: {
-    f0: { v: { k: 'fn', id: 'f0', ret: { k: 'str', v: 'r0' } }, log: false }, f1: { v: { k: 'fn', id: 'f1', ret: { k: 'vnode', id: 'vn1' } }, log: false }, f2: { v: { k: 'fn', id: 'f2', ret: { k: 'str', v: 'r2' } }, log: false },
+    f0: { v: { k: 'counterfn', id: 'f0' }, log: false }, f1: { v: { k: 'fn', id: 'f1', ret: { k: 'vnode', id: 'vn1' } }, log: false }, f2: { v: { k: 'fn', id: 'f2', ret: { k: 'str', v: 'r2' } }, log: false },
     g0: { v: { k: 'str', v: 'G0' }, log: false }, g1: { v: { k: 'fn', id: 'g1' }, log: false }, g2: { v: { k: 'obj', v: { title: { k: 'str', v: 'T' } } }, log: false },
     g9: { v: { k: 'fn', id: 'g9', ret: { k: 'str', v: 'r9' } }, log: false },
   },
@@ -135,6 +139,8 @@ function buildCase(needName, ctxName, before, after, colliders, colliderPlace, i
   if (SIBLINGS[before]) lines.push(SIBLINGS[before]);
   if (need.reassign === 'same') {
     lines.push(`export function t0() {\n  let x = "prev";\n  x = "prev2";\n  /*PRE*/\n  x = <A0${collAttrs}>{x}</A0>;\n  /*POST*/\n  return x;\n}`);
+  } else if (need.reassign === 'twice') {
+    lines.push(`function inner(x) {\n  /*PRE*/\n  x = <A0${collAttrs}>{x}</A0>;\n  x = <B0>{x}</B0>;\n  /*POST*/\n  return x;\n}\nexport const t0 = () => inner("prev");`);
   } else if (need.reassign === 'param') {
     lines.push(`function inner(x) {\n  /*PRE*/\n  x = <A0${collAttrs}>{x}</A0>;\n  /*POST*/\n  return x;\n}\nexport const t0 = () => inner("prev");`);
   } else if (need.reassign === 'outer') {
@@ -150,7 +156,7 @@ function buildCase(needName, ctxName, before, after, colliders, colliderPlace, i
     }
     lines.push(body);
   }
-  if (SIBLINGS[after]) lines.push(SIBLINGS[after].replace(/sib(\d)/g, 'sibB$1').replace(/\bother\b/, 'otherB').replace(/\bfr\b/, 'frB').replace(/\bSib\b/, 'SibB').replace(/sibX/g, 'sibY').replace(/\bq\b/g, 'q2'));
+  if (SIBLINGS[after]) lines.push(SIBLINGS[after].replace(/lateC/, 'lateC2').replace(/lateRef/, 'lateRef2').replace(/lateH/, 'lateH2').replace(/reexported/, 'reexported2').replace(/sib(\d)/g, 'sibB$1').replace(/\bother\b/, 'otherB').replace(/\bfr\b/, 'frB').replace(/\bSib\b/, 'SibB').replace(/sibX/g, 'sibY').replace(/\bq\b/g, 'q2'));
   let text = lines.join('\n') + '\n';
   const innerUsed = [];
   const usedPicks = new Set();
@@ -264,12 +270,24 @@ export async function check(group, records) {
         if (th) { bad = { cls: `slot-error/${th.threw.name}/${/before initialization/.test(th.threw.message) ? 'TDZ' : /not defined/.test(th.threw.message) ? 'unbound' : 'other'}`, detail: th }; break; }
         // user bindings with colliding names must still be what the JSX sees
         const vnode = r.value;
-        if (vnode && vnode.__v_isVNode && spec.colliders.length) {
+        if (vnode && vnode.__v_isVNode && spec.colliders.length && spec.need !== 'reassignTwice') {
           for (let i = 0; i < spec.colliders.length; i++) {
             const got = vnode.props && vnode.props[`u${i}`];
             if (got !== `user:${spec.colliders[i]}`) { bad = { cls: `user-binding-captured/${spec.colliders[i]}`, detail: { expected: `user:${spec.colliders[i]}`, got: short(got) } }; break; }
           }
         }
+      }
+      // re-entrancy: a cached call child (object-slot temporary) belongs to ONE evaluation of the JSX;
+      // evaluating the expression again must not change what an earlier vnode's slot returns
+      if (!bad && ['slotTemp', 'slotTempBound'].includes(spec.need) && spec.thunk === 't0' && (v.options || {}).enableObjectSlots !== false) {
+        const slotOf = (vn) => { try { const ch = vn && vn.children; const fn = typeof ch === 'function' ? ch : ch && ch.default; return typeof fn === 'function' ? JSON.stringify(fn()) : 'no-slot'; } catch (e) { return 'threw ' + e.name; } };
+        try {
+          const v1 = ns.t0();
+          const before = slotOf(v1);
+          const v2 = ns.t0();
+          const after = slotOf(v1);
+          if (v1 !== v2 && before !== after) bad = { cls: `temporary-shared-between-evaluations/${spec.ctx}`, detail: { before, after, second: slotOf(v2) } };
+        } catch (e) { bad = { cls: `thunk-error/${e.name}/reentry`, detail: String(e.message) }; }
       }
       if (bad) out.push(violated({ ...base, oracle: 'module, thunks and slots evaluate twice without ReferenceError/TypeError; colliding user names keep their value', sig: `C06/dynamic/${bad.cls}/${spec.need}`, detail: bad.detail }));
       else out.push(held({ ...base, events: { thunk_runs: 2, slot_events: slotCalls, generated_bindings: (rec.scope || {}).gen_bindings || 0, generated_refs: (rec.scope || {}).gen_refs || 0, drains: ((rec.hooks || {}).events || []).filter((e) => e.startsWith('drain')).length }, shape: ((rec.hooks || {}).events || []).filter((e) => e.startsWith('drain')).join(';') }));
